@@ -17,6 +17,15 @@ CHECKS = {
 		     'native k-mer code as built from the generated C in /repo (no Cython in the sandbox).'),
 }
 
+CHECKS['C05'] = dict(
+	category='exploration', design_ref='DESIGN.md 4.2',
+	technique='deterministic simulation: seeded OpenMP dynamic hand-out (LD_PRELOAD shim replacing the libgomp dispenser), swarm over team size, chunking, containers, index selections and output buffers',
+	text='Seeded search over OpenMP team sizes (1..16), thread-to-iteration assignments and execution orders of the real compiled kernel, combined with drawn chunk sizes, '
+	     'reference containers (in-memory, list, plain list, HDF5 file with each filter), 6x6 dtype pairs, index selections with repeats and caller-supplied/poisoned/strided buffers; '
+	     'every cell is compared as a 32-bit pattern with the two-signature function. Sampling, not proof.',
+	note='Trusts: the shim hands out iterations one at a time, so pre-emption points are iteration boundaries only (races inside one native iteration body are out of reach without Cython); '
+	     'libgomp team creation/barrier are real; the two-signature function is the reference.')
+
 NOT_APPLICABLE = {
 	'C01': 'pure function of (k, prefix, sequence bytes, container type, accumulator): no schedule, fault, clock or persistent state can change it; input generation against a second definition is property-based testing, not simulation',
 	'C02': 'pure function of two sorted arrays; nothing a simulator decides (order, fault, time) enters',
